@@ -182,6 +182,10 @@ def make_evaluator(cfg: dict) -> Panoptica_Evaluator:
         segmentation_class_groups=make_groups(cfg.get("groups")),
         instance_metrics=[METRIC[m] for m in cfg.get("metrics", DEFAULT_METRICS)],
         global_metrics=[METRIC[m] for m in cfg.get("global", ["DSC"])],
+    )
+    if cfg.get("use_default_lists"):  # leave the constructor's own (shared, mutable) default lists in place
+        del kw["instance_metrics"], kw["global_metrics"]
+    kw.update(
         decision_metric=METRIC[cfg["dm"]] if cfg.get("dm") else None,
         decision_threshold=cfg.get("dt") if cfg.get("dm") else None,
     )
